@@ -205,8 +205,104 @@ def r07_10(ctx) -> None:
               f"return {vp}", construct="oct import returns the given octets")
 
 
+def _in_handler_of(fn: FunctionInfo, node: ast.AST, exc: str) -> bool:
+    for h in fn_nodes(fn):
+        if isinstance(h, ast.ExceptHandler) and h.type is not None and exc in norm(h.type):
+            if any(x is node for b in h.body for x in ast.walk(b)):
+                return True
+    return False
+
+
+def r07_11(ctx) -> None:
+    """R07.11  whether the RFC 7797 signing input applies is decided from the PARSED header: in the two rfc7797 extractors the conclusion
+    "ordinary token" (return None) is reached only through a membership test of "b64" in the decoded header object.  A decision taken
+    from the spelling of the header octets (substring search, regex) mis-classifies foreign tokens whose JSON uses escapes."""
+    eng = ctx.eng
+    from .common import resolve_all
+    from ..cfg import cfg_of
+    n = 0
+    for short in ("rfc7797.compact:_extract_compact", "rfc7797.json:_extract_json"):
+        fn = eng.prog.func(short)
+        cfg = cfg_of(fn)
+        exits = [r for r in cfg.returns() if r.ast.value is None or is_const(r.ast.value, None)]  # type: ignore[union-attr]
+        falloff = [e for e, _lab in cfg.normal_exits() if not isinstance(e.ast, ast.Return)]
+        for r in exits + [e for e in falloff if e not in exits]:
+            for path in cfg.guards_of(r):
+                n += 1
+                tests = [(t, out) for t, out in path if t.kind == "test"]
+                ok = False
+                why = "no test at all precedes it"
+                if tests:
+                    t, out = tests[-1]
+                    c = t.ast
+                    why = f"the deciding test is `{norm(c)}`"
+                    if (isinstance(c, ast.Compare) and len(c.ops) == 1 and isinstance(c.ops[0], (ast.In, ast.NotIn)) and const_value(c.left) == "b64"
+                            and (isinstance(c.ops[0], ast.NotIn) == out)):
+                        srcs = resolve_all(eng, fn, c.comparators[0])
+                        ok = bool(srcs) and all(("decode_header(" in x) or ("json_b64decode(" in x) or x.endswith(".headers()") for x in srcs)
+                        why = f"the header object tested is {srcs}"
+                    elif (isinstance(c, ast.Compare) and len(c.ops) == 1 and isinstance(c.ops[0], (ast.In, ast.NotIn)) and isinstance(const_value(c.left), str)
+                          and isinstance(c.comparators[0], ast.Name) and c.comparators[0].id in fn.params and const_value(c.left) != "b64"):
+                        ok = True  # a test of the SHAPE of the serialization given (general JSON is not an RFC 7797 form here), not of the header
+                ctx.check(ok, "R07.11", fn, r.ast if r.ast is not None else fn.node, f"{fn.short} :: 'no b64' exit at line {r.lineno}",
+                          f"the extractor concludes that the token carries no b64 member without asking the parsed header ({why}): a header spelled with JSON escapes "
+                          f"is classified by its spelling", "if 'b64' not in <decoded header>: return None", construct=f"'no b64' conclusion in {fn.short} not from the parsed header")
+    ctx.count("R07.11", n, 2, "paths to the 'ordinary token' conclusion of the RFC 7797 extractors")
+
+
+def r07_12(ctx) -> None:
+    """R07.12  a signature of an independent implementation is refused only by the primitive: in every verify() of the JWS algorithm models a
+    `return False` sits in the handler of the primitive's InvalidSignature, or behind a length test of the signature against an exact octet
+    length ((bits + 7) // 8 - RFC 8017 k, RFC 7518 3.4 coordinate size).  A rounded-down length refuses every key whose bit size is not a multiple of 8."""
+    eng = ctx.eng
+    from .common import resolve_all
+    from ..cfg import cfg_of
+    base = eng.prog.cls("rfc7515.model:JWSAlgModel")
+    n = 0
+    for fn in eng.prog.implementations(base, "verify"):
+        cfg = cfg_of(fn)
+        p_sig = fn.pos_params[2]
+        for r in cfg.returns():
+            v = r.ast.value  # type: ignore[union-attr]
+            if not (is_const(v, False) or is_const(v, None) or v is None):
+                continue
+            if len(cfg.returns()) == 1 and not cfg.guards_of(r)[0]:
+                continue  # a constant function ("none" never verifies - C05 decides that)
+            n += 1
+            if _in_handler_of(fn, r.ast, "InvalidSignature"):
+                ctx.ok("R07.12", f"{fn.short} :: return False at line {r.lineno}", "in the handler of the primitive's InvalidSignature")
+                continue
+            ok = True
+            why = ""
+            for path in cfg.guards_of(r):
+                tests = [(t, out) for t, out in path if t.kind == "test"]
+                if not tests:
+                    ok, why = False, "unconditional"
+                    break
+                c = tests[-1][0].ast
+                sides = [c.left, c.comparators[0]] if isinstance(c, ast.Compare) and len(c.ops) == 1 and isinstance(c.ops[0], (ast.Eq, ast.NotEq)) else []
+                lens = [x for x in sides if isinstance(x, ast.Call) and isinstance(x.func, ast.Name) and x.func.id == "len" and x.args and norm(x.args[0]) == p_sig]
+                if not lens:
+                    ok, why = False, f"decided by `{norm(c)}`"
+                    break
+                other = sides[1] if sides[0] is lens[0] else sides[0]
+                texts = resolve_all(eng, fn, other)
+                # every alternative that still mentions a bit size must carry the round-up; `length = (length + 7) // 8` re-binds a local, so the
+                # un-rounded alternative of the first binding appears only inside the rounded one
+                if not texts or not all(("+ 7) // 8" in x.replace("(", "(").replace("  ", " ")) for x in texts if "key_size" in x or "bit_length" in x) \
+                        or not any("key_size" in x or "bit_length" in x for x in texts):
+                    ok, why = False, f"the length compared with is {texts}"
+                    break
+            ctx.check(ok, "R07.12", fn, r.ast, f"{fn.short} :: return False at line {r.lineno}", f"{fn.short} refuses a signature before / without the primitive ({why}); "
+                      f"an octet length must be (bits + 7) // 8", "return False only on InvalidSignature or len(sig) != exact octet length",
+                      construct=f"early refusal in {fn.short}: {why[:80]}")
+    ctx.count("R07.12", n, 5, "refusing returns in the verify methods of the JWS algorithm models")
+
+
 def run(ctx) -> None:
     ctx.guard(r07_10)
+    ctx.guard(r07_11)
+    ctx.guard(r07_12)
     ctx.guard(r07_1)
     ctx.guard(r07_2)
     ctx.guard(r01_3)  # R07.3: reported under its own rule id R01.3
